@@ -34,11 +34,17 @@ def abstract_cmp_table(body, facts):
 
 
 def _side(t):
-    """1 if term is rooted at parameter self, 2 for other"""
+    """1 if term is rooted at parameter self, 2 for other (closures: the captured `self` / second parameter)"""
     ps = {x[1] for x in walk(t) if x[0] == "param"}
-    if ps == {1}:
+    us = {x[2] for x in walk(t) if x[0] == "upvar"}
+    if ps == {1} and not us:
         return 1
-    if ps == {2}:
+    if ps == {2} and not us:
+        return 2
+    if not ps and len(us) == 1:
+        u = us.pop()
+        if u == "self":
+            return 1
         return 2
     return None
 
@@ -65,7 +71,13 @@ def _eval_pred(t, rs, ro, idx):
     raise ValueError("unrecognised predicate in comparator: %s" % fmt(t, 5))
 
 
+_IDX = [None]
+_FACTS = [None]
+
+
 def _run_cmp(body, du, facts, rs, ro, idx, st):
+    _IDX[0] = idx
+    _FACTS[0] = facts
     bi = 0
     result = None
     for _ in range(400):
@@ -118,7 +130,27 @@ def _result_of(t, st):
                 return st
             if (sa, sb) == (2, 1):
                 return {"<": ">", ">": "<", "=": "="}[st]
-    raise ValueError("unrecognised comparator result %s" % fmt(t, 5))
+    if t[0] == "call" and callee_name(t) == "cmp" and len(t[2]) == 2:
+        fa = [x[2] for x in walk(t[2][0]) if x[0] == "field"]
+        fb = [x[2] for x in walk(t[2][1]) if x[0] == "field"]
+        if fa == ["index"] and fb == ["index"] and {_side(t[2][0]), _side(t[2][1])} == {1, 2} and _IDX[0] is not None:
+            return _IDX[0] if _side(t[2][0]) == 1 else {"<": ">", ">": "<", "=": "="}[_IDX[0]]
+    if t[0] == "call" and callee_name(t) in ("then_with", "then") and len(t[2]) == 2:
+        first = _result_of(t[2][0], st)
+        if first in ("<", ">"):
+            return first
+        if first == "=":
+            second = t[2][1]
+            cl = [x for x in walk(second) if x[0] == "closure"]
+            if callee_name(t) == "then_with" and cl and _FACTS[0] is not None:
+                cb = _FACTS[0].body(cl[0][1])
+                if cb is not None:
+                    return _result_of(du_of(cb).local_term(0, 12), st)
+            if callee_name(t) == "then":
+                return _result_of(second, st)
+    # any other expression (e.g. a comparison of a single field, a then_with chain): keep it symbolically; it can
+    # never equal the specified result, which is the comparison of the complete printed identifiers
+    return "«%s»" % fmt(t, 5)
 
 
 def spec_cmp(rs, ro, idx, st):
@@ -169,6 +201,13 @@ def run(facts, res):
             bad = [(k, v, spec_cmp(*k)) for k, v in sorted(tab.items()) if v != spec_cmp(*k)]
             for k, v in sorted(tab.items()):
                 res.instance("W3", "cmp(resolved_self=%s, resolved_other=%s, index %s, printed %s) = %s" % (k[0], k[1], k[2], k[3], v), cmpb.loc(), nontrivial=True)
+            sym = sorted({v for k, v, s_ in bad if v.startswith("«")})
+            for v in sym:
+                ks = [k for k, vv, s_ in bad if vv == v]
+                res.violation("W3", "cmp|tie-break:%s" % v,
+                              "Revision::cmp decides %d abstract case(s) (e.g. resolved_self=%s, resolved_other=%s, index %s) by %s instead of the byte-wise "
+                              "comparison of the complete printed identifiers (self.to_string().cmp(&other.to_string()))" % (len(ks), ks[0][0], ks[0][1], ks[0][2], v), cmpb.loc())
+            bad = [b_ for b_ in bad if not b_[1].startswith("«")]
             for k, v, s in bad:
                 res.violation("W3", "cmp|table:%s" % ",".join(map(str, k)),
                               "Revision::cmp yields %s for (resolved_self=%s, resolved_other=%s, index %s, printed %s); the specified order yields %s" % (
@@ -176,6 +215,8 @@ def run(facts, res):
             # antisymmetry on the abstract domain
             rev = {"<": ">", ">": "<", "=": "="}
             for (rs, ro, ix, st), v in tab.items():
+                if v not in rev or tab[(ro, rs, rev[ix], rev[st])] not in rev:
+                    continue
                 if tab[(ro, rs, rev[ix], rev[st])] != rev[v]:
                     res.violation("W3", "cmp|antisymmetry", "Revision::cmp is not antisymmetric on the abstract domain", cmpb.loc())
                     break
